@@ -49,8 +49,16 @@ func (s *jsonStream) next() (any, error) {
 		if err != nil {
 			if err == io.EOF && s.states[len(s.states)-1] != jsonStateTopValue {
 				err = io.ErrUnexpectedEOF
-			} else if e, ok := err.(*json.SyntaxError); ok && e.Offset == s.dec.InputOffset() {
-				e.Offset++ // the offset of a token error does not count the invalid character
+			} else if e, ok := err.(*json.SyntaxError); ok {
+				// the offset of an error in a value counts the bytes of the values
+				// only, so locate the error again from the beginning of the value
+				var v any
+				b, _ := io.ReadAll(s.dec.Buffered())
+				if e2, ok := json.Unmarshal(b, &v).(*json.SyntaxError); ok && e2.Error() == e.Error() {
+					e.Offset = s.dec.InputOffset() + e2.Offset
+				} else if e.Offset == s.dec.InputOffset() {
+					e.Offset++ // the offset of a token error does not count the invalid character
+				}
 			}
 			return nil, err
 		}
